@@ -114,8 +114,8 @@ def processLogout (env : Env) (m : Msg) : M Unit := do
   disconnect env dstate none
 
 /-- `_process_seqreset` (l.687-722): `False` = a GapFill that is not numbered as expected or does not
-move forward (then the caller only runs the gap check).  Otherwise two `set_seq_num` calls: to the
-frame's own MsgSeqNum, then to NewSeqNo.  Python's `or` short-circuits: `int(msg[36])` is evaluated
+move forward (then the caller only runs the gap check).  Otherwise NewSeqNo is read and asserted
+`> 0` first (fix d38d961), then two `set_seq_num` calls: to the frame's own MsgSeqNum, then to NewSeqNo.  Python's `or` short-circuits: `int(msg[36])` is evaluated
 only when the number is the expected one. -/
 def processSeqreset (m : Msg) : M Bool := do
   M.assert (m.mtype == mSequenceReset)
@@ -132,10 +132,12 @@ def processSeqreset (m : Msg) : M Bool := do
     else pure true
   if !honoured then pure false
   else do
-    let n ← M.int v
-    setSeqNum none (some n)
+    -- fix d38d961: NewSeqNo is read and checked before anything is touched
     let w ← M.liftE (m.get tNewSeqNo)
     let nw ← M.int w
+    M.assert (decide (nw > 0))
+    let n ← M.int v
+    setSeqNum none (some n)
     setSeqNum none (some nw)
     pure true
 
